@@ -451,6 +451,51 @@ func init() {
 		x.vc.Assert(Eq(r, Ite(hp, x.strSub(s, sLen(p), sLen(s)), s)))
 		return VTerm{r}, true
 	})
+	regModel("strconv.FormatFloat", func(x *Exec, fr *Frame, st *State, a []Value, pos token.Pos, rt types.Type) (Value, bool) {
+		// trusted: the text of a float is never empty (digits, "NaN", "+Inf", ...)
+		r := x.vc.Fresh("ffloat", SStr)
+		x.vc.strFacts(r)
+		x.vc.Assert(Ge(sLen(r), IntLit(1)))
+		return VTerm{r}, true
+	})
+	libFrames["strconv.FormatFloat"] = map[string]Sort{}
+	regModel("strings.ToLower", func(x *Exec, fr *Frame, st *State, a []Value, pos token.Pos, rt types.Type) (Value, bool) {
+		// r = lower(s), named ufs("strings.ToLower", s) in specs; trusted fact: idempotent
+		f := x.vc.Fun("ufs|strings.ToLower", []Sort{SStr}, SStr)
+		r := app(SStr, f, tOf(a[0]))
+		x.vc.strFacts(r)
+		x.vc.Assert(Eq(app(SStr, f, r), r))
+		return VTerm{r}, true
+	})
+	regModel("strings.Cut", func(x *Exec, fr *Frame, st *State, a []Value, pos token.Pos, rt types.Type) (Value, bool) {
+		// before, after, found = Cut(s, sep): named ufs("strings.Cut.before", s, sep) and
+		// ufs("strings.Cut.after", s, sep) in specs; trusted facts: not found => before == s and
+		// after == ""; found => len(before)+len(sep)+len(after) == len(s) and before is a prefix of s
+		s, sep := tOf(a[0]), tOf(a[1])
+		fb := x.vc.Fun("ufs|strings.Cut.before", []Sort{SStr, SStr}, SStr)
+		fa := x.vc.Fun("ufs|strings.Cut.after", []Sort{SStr, SStr}, SStr)
+		before, after := app(SStr, fb, s, sep), app(SStr, fa, s, sep)
+		found := x.vc.Fresh("cutfound", SBool)
+		x.vc.strFacts(before)
+		x.vc.strFacts(after)
+		x.vc.Assert(Implies(Not(found), And(Eq(before, s), Eq(sLen(after), IntLit(0)))))
+		x.vc.Assert(Implies(found, And(Eq(Add(Add(sLen(before), sLen(sep)), sLen(after)), sLen(s)), x.hasPrefix(s, before))))
+		return VStruct{[]Value{VTerm{before}, VTerm{after}, VTerm{found}}}, true
+	})
+	libFrames["strings.Cut"] = map[string]Sort{}
+	libFrames["strings.ToLower"] = map[string]Sort{}
+	libFrames["strings.TrimSpace"] = map[string]Sort{}
+	regModel("strings.TrimSpace", func(x *Exec, fr *Frame, st *State, a []Value, pos token.Pos, rt types.Type) (Value, bool) {
+		// r = trim(s); trusted facts: idempotent, never longer than the argument.
+		// Specs name it as ufs("strings.TrimSpace", s).
+		f := x.vc.Fun("ufs|strings.TrimSpace", []Sort{SStr}, SStr)
+		s := tOf(a[0])
+		r := app(SStr, f, s)
+		x.vc.strFacts(r)
+		x.vc.Assert(Eq(app(SStr, f, r), r))
+		x.vc.Assert(Le(sLen(r), sLen(s)))
+		return VTerm{r}, true
+	})
 	regModel("strings.Index", func(x *Exec, fr *Frame, st *State, a []Value, pos token.Pos, rt types.Type) (Value, bool) {
 		s, sub := tOf(a[0]), tOf(a[1])
 		r := x.vc.Fresh("index", SInt)
